@@ -54,6 +54,7 @@ type Exec struct {
 	ghosts    map[string]*Value
 	staticRecv types.Type
 	globalVals map[*types.Var]*Value
+	allocSeen  map[[2]*Term]bool
 }
 
 func (x *Exec) fr() *frame { return x.frames[len(x.frames)-1] }
